@@ -255,7 +255,10 @@ pub fn judge(ctx: &mut Ctx, r: &PortableRegistry, substitutes: &[(String, String
                     if let Err(div) = b.rel(t.id, &ty) {
                         // a compact in the registry that the code does not mark shows as a head
                         // mismatch on the registry's compact
-                        let unmarked_compact = div.kind == "head-mismatch" && div.why.contains("is a compact but");
+                        let unmarked_compact = div.kind == "head-mismatch"
+                            && div.why.contains("is a compact but")
+                            && div.trail.len() <= 2
+                            && div.trail.last().map(|t| t.starts_with("field ")).unwrap_or(false);
                         if matches!(div.kind, "variant-index" | "compact-marker") || unmarked_compact {
                             ctx.violation(format!("C09:codec-on:{}", div.kind), format!("combination {k}: {}: {}", path.join("::"), div.render()), replay(k));
                         }
